@@ -28,11 +28,15 @@ def read_cache(mapper, path, records_per_chunk):
     remote = remote_cache_location(mapper.root, path)
     local = local_cache_location(mapper.root, path)
 
-    if local.is_file():
-        return decode(local.read_text(), records_per_chunk=records_per_chunk)
+    try:
+        if local.is_file():
+            return decode(local.read_text(), records_per_chunk=records_per_chunk)
 
-    if remote in mapper:
-        return decode(mapper[remote].decode(), records_per_chunk=records_per_chunk)
+        if remote in mapper:
+            return decode(mapper[remote].decode(), records_per_chunk=records_per_chunk)
+    except json.JSONDecodeError as e:
+        # e.g. a cache file left behind by an interrupted (or still running) cache creation
+        raise CachingError(f"incomplete cache file for {path}") from e
 
     raise CachingError(f"no cache found for {path}")
 
